@@ -96,7 +96,10 @@ class TCPServer:
                 ):
                     await self.protocol.handle(Closed())
         elif isinstance(event, Closed):
-            await self._close()
+            # Writes in progress (or waiting their turn) go out first,
+            # closing underneath them would drop what they carry.
+            async with self.send_lock:
+                await self._close()
             await self.protocol.handle(Closed())
         elif isinstance(event, Updated):
             if event.idle and not self._read_complete:
